@@ -132,9 +132,14 @@ void run_t(const Prog &p) {
             }
         });
         {
-            std::vector<G> list;
-            for (size_t i = 0; i < p.src.size(); i++) { if constexpr (ARG) list.push_back(src_arg(&w, (int)i)); else list.push_back(src_plain(&w, (int)i)); }
-            G agg = cocls::generator_aggregator(std::move(list));
+            // the list of sources is handed over to the aggregate: either a vector that outlives it, or (odd number of
+            // sources) a vector local to a helper that is gone before the aggregate is accessed for the first time
+            std::vector<G> outer;
+            auto fill = [&](std::vector<G> &list) { for (size_t i = 0; i < p.src.size(); i++) { if constexpr (ARG) list.push_back(src_arg(&w, (int)i)); else list.push_back(src_plain(&w, (int)i)); } };
+            G agg = [&]() -> G {
+                if (p.src.size() % 2) { std::vector<G> list; fill(list); return cocls::generator_aggregator(std::move(list)); }
+                fill(outer); return cocls::generator_aggregator(std::move(outer));
+            }();
             if (p.consumer == 0) consume_blocking<G, ARG>(agg, p, res, bound);
             else { cocls::future<void> done = consume_coro<G, ARG>(agg, p, res, bound).start(); done.wait(); }
             // the aggregate is destroyed here, from ordinary code (possibly parked at a yield with
